@@ -152,6 +152,19 @@ func LibLocal() *ty.Env {
 	return e
 }
 
+// PointerKeyed are map types whose KEY is (underlying) a pointer, at the top level, as an element and as a map value.
+// They are outside the Lean models (typing demands pointer-free keys; Go's == on them is identity: known finding F87
+// for Equal / Compare / Hash): only the copy plugins see them, judged on the Go side (ops deepcopyk / clonek). The key
+// types are such that copying a key needs no further generated function.
+func PointerKeyed() []*ty.Ty {
+	pi, ps, np := ty.P(ty.B("int")), ty.P(ty.N(5)), ty.N(13)
+	return []*ty.Ty{
+		ty.M(pi, ty.B("int")), ty.M(pi, ty.Sl(ty.B("int"))), ty.M(ps, ty.B("string")), ty.M(np, ty.P(ty.B("int"))),
+		ty.M(ty.P(ty.B("string")), ty.M(ty.B("string"), ty.B("int"))),
+		ty.Sl(ty.M(pi, ty.B("int"))), ty.M(ty.B("string"), ty.M(ps, ty.Sl(ty.B("int")))), ty.P(ty.M(pi, ty.P(ty.B("int")))),
+	}
+}
+
 // Corpus is a set of top-level types over an environment.
 type Corpus struct {
 	Env   *ty.Env
@@ -263,6 +276,11 @@ func NewCorpusEnv(env *ty.Env, rng *rand.Rand, thorough bool, n2, extra int) *Co
 		ty.P(ty.N(47)), ty.Sl(ty.N(46)), ty.P(ty.N(50)),
 		// arrays of arrays whose elements are not assignable (nested loops over one array)
 		ty.P(ty.N(51)), ty.P(ty.N(53)), ty.P(ty.N(54)), ty.P(ty.N(57)), ty.P(ty.N(59)),
+		// a pointer to a pointer BELOW the top level (element, map value, array element, field R of SP; also *NP with
+		// `type NP *int`): the inner target has to be copied as well
+		ty.Sl(ty.P(ty.P(ty.B("int")))), ty.M(ty.B("string"), ty.P(ty.P(ty.B("int")))),
+		ty.P(ty.Ar(2, ty.P(ty.P(ty.Sl(ty.B("int")))))), ty.Sl(ty.P(ty.N(13))), ty.M(ty.B("int8"), ty.P(ty.N(13))),
+		ty.P(ty.N(20)), ty.Sl(ty.P(ty.P(ty.N(6)))),
 	} {
 		add(t)
 	}
